@@ -58,6 +58,13 @@ type Step struct {
 	DocEnd    int      `json:"doc_end,omitempty"`   // offset at which the body's document is complete
 	Malformed string   `json:"malformed,omitempty"` // non-empty: malformed on purpose (what), must be answered 4xx
 	Call      *DavCall `json:"call,omitempty"`      // C14: one client call
+
+	// overlapping requests (C02): this request stalls in its body stream at
+	// byte Gate, the During requests are served one after the other meanwhile,
+	// then the stream goes on (into its fault)
+	During      []Step `json:"during,omitempty"`
+	Gate        int    `json:"gate,omitempty"`
+	FromListing int    `json:"from_listing,omitempty"` // k>0: the target is the k-th href of the last multi-status answer
 }
 
 func (s *Step) Header(name string) (string, bool) {
